@@ -109,6 +109,7 @@ package fptower
 
 //@ func E2.MulByElement
 //@ layer ring fp.Element
+//@ option interior
 //@ ensures[value] vec(z) == vscale(old(*y), old(vec(x)))
 //@ ensures[result] result == z
 //@ modifies z
